@@ -42,6 +42,12 @@ check("C19", "exploration", "property-based testing (Hypothesis) over a template
       "Trusted: vp/confmodel.py ref_extrapolate / ref_pattern_replacing; generator emits only well-formed inputs (unique names and templates).",
       "DESIGN.md section 2, C19")
 
+check("C07", "exploration", "property-based testing (Hypothesis) against an independent reference unfolding",
+      "Generated searches (symbols, comma lists, aliases, '**' spans, 0-2 filters, malformed) are unfolded by the library and by a reference written from the statement; "
+      "results are compared as sets of uris, exceptions included; malformed searches and filters on a narrowing key get weak invariants only.",
+      "Trusted: vp/refsearch.py + vp/confmodel.py. do_extrapolate=True is only checked for string-superset and validity of elements.",
+      "DESIGN.md section 2, C07")
+
 NOT_APPLICABLE = {
 }
 
